@@ -157,6 +157,14 @@ DISPLAY_INVALID = {
 }
 
 
+# Leaves that the style classes construct with a hard coded value instead of None (Pixel(size=1),
+# ArrowSingle(show=True), Model3d(showdefault=True)).  Under the property as worded ("else the object's own
+# style") that value IS the object's own value and wins over the family / base defaults, which can therefore
+# never take effect for these leaves - observed, counted (probe), not flagged: DESIGN.md section 10.
+CLASS_DEFAULT = {"pixel_size": 1, "arrows_x_show": True, "arrows_y_show": True, "arrows_z_show": True,
+                 "model3d_showdefault": True}
+
+
 class StyleModel:
     def __init__(self):
         self.D = load_frozen_defaults()  # "fam_leaf" -> value
@@ -203,6 +211,10 @@ class StyleModel:
         if own is not None:
             return own
         return self.default_for(self.cls[i], leaf)
+
+    def holds_class_default(self, i, leaf):
+        return leaf in CLASS_DEFAULT and self.S[i].get(leaf) == CLASS_DEFAULT[leaf] and \
+            type(self.S[i].get(leaf)) is type(CLASS_DEFAULT[leaf])
 
     def copy_object(self, i):
         self.cls.append(self.cls[i])
